@@ -43,7 +43,7 @@ def run(ctx):
     ctx.coverage["rule"] = ("the real API server started in-process; W goroutines POST every read method (rich lists preferred by two of them, get-sync-status polled by one) while "
                             "the real DBlockSync replays a scenario chain; compared: the final ledger with an unloaded run, every get-sync-status answer with the committed height; "
                             "thorough: the same under the Go race detector; evaluations = API calls, non-trivial = distinct methods exercised")
-    ctx.proof_stage(extra_targets=["Lemmas/SyncLemmas.vo", "Lemmas/SitesLemmas.vo"])
+    ctx.proof_stage(extra_targets=["Lemmas/SyncLemmas.vo", "Lemmas/SitesC18.vo"])
     apiload(ctx, ["gaps"] if ctx.tier == "quick" else ["gaps", "eras"], 8, ctx.tier == "thorough")
 
 
